@@ -330,3 +330,9 @@ NEUTRALS = [
     M("exit clauses reordered", _B, "if beta == 1.0 or (\n                    max_n_steps is not None and iterations >= max_n_steps\n                ):", "if (max_n_steps is not None and iterations >= max_n_steps) or beta == 1.0:"),
     M("adaptive clamp in one expression", _B, "beta = max(beta_star, beta_prev + min_step)\n            beta = min(beta, 1.0)", "beta = min(1.0, max(beta_prev + min_step, beta_star))"),
 ]
+
+# functions the property is anchored in (auto-mutant sweep of the thorough tier)
+ANCHORS = [
+    'aspire.samplers.smc.base:SMCSampler.determine_beta',
+    'aspire.samplers.smc.base:SMCSampler.sample',
+]
